@@ -214,6 +214,33 @@ def run(sh):
                     sh.count("printed_ok_" + style)
                     if pv != int(pv) or abs(pv) > 1000:
                         sh.nontrivial(d["bits"] + style)
+        # ---- (d') the same values printed through the other number-to-text routes: interpolation, inspect(),
+        # string concatenation, inside lists/maps, with a unit. These texts are SassScript values (read through the
+        # probe), so they use the expanded spelling in both output styles.
+        ctx_exprs = []
+        for l in lits:
+            L = "(%s)" % l
+            ctx_exprs.append('("#{%s}", inspect(%s), "" + %s, inspect((%s %s)), inspect((k: %s)), "#{%s * 1px}", inspect(%s * 1em), "#{(%s, 1)}")' % (L, L, L, L, L, L, L, L, L))
+        style = rng.choice(["expanded", "compressed"])
+        got = probe.eval_many(sh.w, ctx_exprs, style=style)
+        names = ["interpolation", "inspect", "concatenation", "inspect-of-list", "inspect-of-map", "interpolation-with-unit", "inspect-with-unit", "interpolated-list"]
+        shapes = ["%s", "%s", "%s", "%s %s", "(k: %s)", "%spx", "%sem", "%s, 1"]
+        for v, l, g in zip(vals, lits, got):
+            sh.ev()
+            if g[0] != "ok" or g[1].get("t") != "l" or len(g[1]["v"]) != len(names):
+                sh.violation("contexts-fail:" + l, "number-to-text expressions for %s do not evaluate: %s" % (l, str(g)[:200]), {"expr": l}, {})
+                continue
+            want = expected_text(v, False)
+            bad = False
+            for nm, shp, d in zip(names, shapes, g[1]["v"]):
+                txt = d.get("v")
+                ok = {shp.replace("%s", w) for w in want}
+                if txt not in ok:
+                    bad = True
+                    sh.violation("print-context:%s:%s" % (nm, bits(v)), "%r printed through %s as `%s` (%s mode); correctly rounded 10-digit text is %s" % (
+                        v, nm, txt, style, sorted(ok)), {"expr": l, "style": style, "context": nm}, {"value": repr(v), "context": nm, "printed": txt, "expected": sorted(ok)})
+            if not bad:
+                sh.count("printed_ok_contexts")
         # ---- (a)+(b) arithmetic and comparison on pairs
         exprs = []
         pairs = []
